@@ -11,7 +11,7 @@ Expressions in prefix notation:
   `b <n,n,…|->` bytes · `N`/`T`/`F` None/True/False · `E` ellipsis · `U <Op> e` · `B <Op> e e` ·
   `L <Op> <k> e×k` · `tu|li|se <k> e×k` · `di <k> (key val)×k` (key `ab` = `**`) ·
   `ca f <na> e×na <nk> (<u:name>|- e)×nk` · `su e e` · `st e` · `A a` (astor fragment) · `o <u:>` opaque ·
-  `un` (astor raised) · `ab`.
+  `un` (astor raised) · `ab` · `ul e` (node reached without a parent link).
 Astor fragment: `n <u:>` · `U <Op> a` · `B <Op> a a` · `L <Op> <k> a×k` · `C a <k> (<Op> a)×k` · `I a a a`.
 Operators are the `ast` class names. -/
 namespace Pyval
